@@ -516,3 +516,45 @@ def value_range(fn, name, before=None):
 
     visit(fn.body)
     return env.get(name, (-inf, inf))
+
+
+# --------------------------------------------------------------------------- end points of stored segments
+def stored_endpoint(arg, fn):
+    """Is `arg` (inside fn) the start/end of an element of a `_segments` list - written in full
+    (self._segments[-1].end), through a local holding the element (seg = self._segments[-1]; seg.end; also a loop variable
+    over the list) or through a local holding the end point itself (end = self._segments[-1].end)?  Locals must have
+    exactly one binding in fn."""
+    def binding(name):
+        found = []
+        for n in ast.walk(fn):
+            if isinstance(n, ast.Assign) and len(n.targets) == 1 and isinstance(n.targets[0], ast.Name) and n.targets[0].id == name:
+                found.append(n.value)
+            elif isinstance(n, (ast.For, ast.comprehension)) and any(isinstance(t, ast.Name) and t.id == name for t in ast.walk(n.target)):
+                found.append(("iter", n.iter) if isinstance(n.target, ast.Name) else None)
+            elif isinstance(n, (ast.AugAssign, ast.NamedExpr)) and any(isinstance(t, ast.Name) and t.id == name and isinstance(t.ctx, ast.Store) for t in ast.walk(n)):
+                found.append(None)
+        params = [a.arg for a in fn.args.args + fn.args.kwonlyargs]
+        return found[0] if len(found) == 1 and found[0] is not None and name not in params else None
+
+    def element(e, depth=0):
+        if isinstance(e, ast.Subscript) and "_segments" in ast.unparse(e.value):
+            return True
+        if isinstance(e, ast.Name) and depth < 3:
+            b = binding(e.id)
+            if isinstance(b, tuple):
+                it = b[1]
+                while isinstance(it, ast.Call) and isinstance(it.func, ast.Name) and it.func.id in ("reversed", "list", "iter") and it.args:
+                    it = it.args[0]
+                return "_segments" in ast.unparse(it) or (isinstance(it, ast.Name) and it.id == "self")
+            return b is not None and element(b, depth + 1)
+        return False
+
+    def endpoint(e, depth=0):
+        if isinstance(e, ast.Attribute) and e.attr in ("start", "end"):
+            return element(e.value)
+        if isinstance(e, ast.Name) and depth < 3:
+            b = binding(e.id)
+            return b is not None and not isinstance(b, tuple) and endpoint(b, depth + 1)
+        return False
+
+    return endpoint(arg)
